@@ -169,6 +169,37 @@ def check_requests(topics, partitions, acks_list, payload_lists):
   return {'n': n, 'keys': len(keys), 'viol': viol, 'sample': sample}
 
 
+def check_client_ids():
+  """The client id in the header is whatever KafkaTransportSink.CLIENT_ID says (shorter, longer, non-ASCII)."""
+  import gevent
+  from scales.kafka.sink import KafkaTransportSink
+  viol = []
+  n = 0
+  orig = KafkaTransportSink.CLIENT_ID
+  try:
+    for cid in ('scales', 'c', 'a-much-longer-client-id', 'çlient', ''):
+      KafkaTransportSink.CLIENT_ID = cid
+      world.reset()
+      ch = Chain()
+      for pl in ([b'a'], [b'a', b'bc']):
+        n += 1
+        written = ch.put('i%d' % n, b't', 0, list(pl), 1)
+        try:
+          req = K.parse_request(written)
+          p = K.parse_produce(req['body'])
+          ok = req['client_id'] == cid.encode('utf-8') and [m['value'] for m in p['topics'][0]['partitions'][0]['messages']] == list(pl)
+          got = (req['client_id'], [m['value'] for m in p['topics'][0]['partitions'][0]['messages']])
+        except Exception as e:  # noqa
+          ok, got = False, repr(e)
+        if not ok:
+          viol.append({'clause': 'C15.header', 'message': 'client id %r: request decodes to %r' % (cid, got), 'sig': {'client_id': cid}})
+          break
+        ch.reply(K.produce_response(req['correlation_id'], [(b't', [(0, 0, 1)])]))
+  finally:
+    KafkaTransportSink.CLIENT_ID = orig
+  return {'n': n, 'keys': n, 'viol': viol, 'sample': None}
+
+
 def check_responses(tier):
   """Every encodable produce / metadata response through the real protocol class and receive path."""
   from scales.compat import BytesIO
@@ -264,6 +295,7 @@ def main(tier, seed):
     out = explore.pmap('vt.checks.c15', 'check_requests', jobs, pool, seed)
     out += explore.pmap('vt.checks.c15', 'check_responses', [(tier,)], pool, seed)
     out += explore.pmap('vt.checks.c15', 'check_correlation', [()], pool, seed)
+    out += explore.pmap('vt.checks.c15', 'check_client_ids', [()], pool, seed)
   finally:
     pool.close()
     pool.join()
